@@ -78,3 +78,37 @@ Example C13_example :
   scc_of ex_g 2%Z = Some [2; 3]%Z /\
   doms_fwd ex_g = Some [(1, [1]); (2, [1; 2]); (3, [1; 2; 3])]%Z.
 Proof. vm_compute. repeat split; reflexivity. Qed.
+
+(* ---------- the dominator work-list itself (transformations._find_dominators_internal) ----------
+   Model/DomWl.v is the algorithm line by line (todo stack, successors pushed in the iteration order of
+   the set - an input -, comparison and assertion); tied to the code on every call the pipeline makes and
+   on direct calls with shuffled orders.  For ALL graphs (distinct nodes, tables inverse to each other and
+   closed in the nodes), for ANY enumeration of the successor sets and with the entry points being the nodes
+   without predecessor: with the stated fuel it returns - no assertion, no key error - and the table is
+   exactly the dominance relation of the reference definition, every set sorted. *)
+From V Require Import Model.DomWl Model.DomWlProof.
+
+Theorem C13_dominator_worklist_correct :
+  forall nodes preds succs B,
+    NoDup nodes ->
+    (forall n, In n nodes -> incl (preds n) nodes) ->
+    (forall n, In n nodes -> incl (succs n) nodes) ->
+    (forall n p, In n nodes -> In p nodes -> (In p (preds n) <-> In n (succs p))) ->
+    (forall n, (length (succs n) <= B)%nat) ->
+    forall fuel,
+      entries nodes preds <> [] ->
+      (mu nodes B (init_D nodes (entries nodes preds)) (init_stk nodes (entries nodes preds)) < fuel)%nat ->
+      exists D log, find_dominators nodes (entries nodes preds) preds succs fuel = WOk D log /\
+        forall m, In m nodes -> StronglySorted Z.lt (dget D m) /\
+                                forall a, In a (dget D m) <-> (In a nodes /\ Dominates nodes succs preds a m).
+Proof. exact find_dominators_correct. Qed.
+Print Assumptions C13_dominator_worklist_correct.
+
+(* non-vacuity: the example graph above, forward direction *)
+Example C13_dominator_worklist_example :
+  let nodes := [1; 2; 3]%Z in
+  let preds := fun n => if Z.eqb n 2 then [1; 3]%Z else if Z.eqb n 3 then [2]%Z else [] in
+  let succs := fun n => if Z.eqb n 1 then [2]%Z else if Z.eqb n 2 then [3]%Z else if Z.eqb n 3 then [2]%Z else [] in
+  find_dominators nodes (entries nodes preds) preds succs 40 =
+    WOk [(1, [1]); (2, [1; 2]); (3, [1; 2; 3])]%Z [(3, false); (2, true); (3, false)]%Z.
+Proof. vm_compute. reflexivity. Qed.
